@@ -364,6 +364,10 @@ def build(seed, tier, focus='all'):
                  attrs_field="plain", magic_ident=True, rename_all="camelCase")
     root([field("name", V), field("rest", ty("recv", flat_inner), flatten=True)], trait="FromDeriveInput",
          attr_names=["x"], max_items=3, max_attrs=2)
+    # an attribute name of several segments is a name like any other
+    root([field("max_volume", V), field("other", O)], trait="FromField", attr_names=["ns::y"], max_items=2, max_attrs=2)
+    root([field("max_volume", V, default="trait")], trait="FromDeriveInput", attr_names=["x", "ns::y"], forward="only", forward_names=["ns::keep", "doc"],
+         attrs_field="plain", max_items=2, max_attrs=2)
     # marker receivers: `attributes(..)` but no ordinary field at all
     for tr in ("FromDeriveInput", "FromVariant", "FromTypeParam"):
         root([], trait=tr, attr_names=["x"], forward="all", attrs_field="plain", magic_ident=True, max_items=2, max_attrs=3)
